@@ -1399,16 +1399,29 @@ impl Compiler {
         let result = self.assign_result_register(ctx)?;
         let target_registers = self.local_registers_for_assign_target(target, ctx)?;
         let rhs_value = self.compile_node(expression, ctx.with_any_register())?;
+        let mut value_register = rhs_value.unwrap(self)?;
+
+        // If the value being unpacked is also one of the targets (e.g. `{x, y} = x`), then it
+        // needs to be kept in a temporary register while its entries are assigned.
+        let value_is_a_target = target_registers.contains(&value_register);
+        if value_is_a_target {
+            let temp_register = self.push_register()?;
+            self.push_op(Op::Copy, &[temp_register, value_register]);
+            value_register = temp_register;
+        }
 
         self.compile_assign_to_map_finish(
             result.register,
             target,
             &target_registers,
-            rhs_value.unwrap(self)?,
+            value_register,
             export_assignment,
             ctx,
         )?;
 
+        if value_is_a_target {
+            self.pop_register()?;
+        }
         if rhs_value.is_temporary {
             self.pop_register()?;
         }
